@@ -134,11 +134,14 @@ func (s *Server) serve(ctx context.Context, listener net.Listener, handler Modbu
 	s.mu.Unlock()
 	l := onceCloseListener{Listener: listener}
 	defer l.Close()
+	// Accept does not observe the context, closing the listener is the only way to unblock it
+	stopCloseOnCancel := context.AfterFunc(ctx, func() { _ = l.Close() })
+	defer stopCloseOnCancel()
 
 	for {
 		netConn, err := l.Accept()
 		if err != nil {
-			if s.isShutdown.Load() {
+			if s.isShutdown.Load() || ctx.Err() != nil {
 				return ErrServerClosed
 			}
 			return err
